@@ -98,9 +98,14 @@ def run(ctx):
             ctx.count("orderings_sum_checked")
             if abs(Fraction(b2f(js[-1])) - so) > Fraction(tol) * abs(so):
                 ctx.violation("J(full) differs from the sum over all E! orderings", r, expected=float(so), observed=b2f(js[-1]))
-        if c["dod"] <= 0 and c["dod"].denominator == 1:
+        dodf = float(c["dod"])
+        pole_dist = abs(dodf - round(dodf)) if dodf < 0.5 else 1.0
+        if dodf < 0.5 and pole_dist < 1e-6:
             ctx.count("dod_at_gamma_pole_skipped"); continue
         cx = cached_oracle(c, Jx[-1])
-        if not (abs(b2f(a["cached"]) - cx) <= (1e-11 + tol) * abs(cx)):
+        # Gamma(dod) is evaluated at the ROUNDED dod: near 0 (and near other arguments where Gamma varies fast) the rounding of
+        # dod = sum w - L D/2 is amplified by |psi(dod)| ~ 1/|dod|
+        gsens = 4e-16 * wsum * (1.0 / min(pole_dist, 1.0) + 10.0 + abs(dodf)) + sum(4e-16 * (1.0 / min(w, 1.0) + 10.0) for w in c["weights"])
+        if not (abs(b2f(a["cached"]) - cx) <= (1e-11 + tol + gsens) * abs(cx)):
             ctx.violation(f"cached normalisation {b2f(a['cached'])!r} differs from J(full) Gamma(dod)/prod Gamma(w) pi^(DL/2) = {cx!r}", r,
                           expected=cx, observed=b2f(a["cached"]))
